@@ -108,6 +108,17 @@ class Lazy:
         return f'Lazy({self.label})'
 
 
+class Closure:
+    """closure value: identifying text (`{closure@file:l:c: l:c}`), captured values in order, type substitution at creation"""
+    __slots__ = ('key', 'fields', 'subst')
+
+    def __init__(self, key, fields, subst):
+        self.key, self.fields, self.subst = key, list(fields), dict(subst)
+
+    def __repr__(self):
+        return f'Closure({self.key})'
+
+
 class Ref:
     __slots__ = ('frame', 'place')
 
@@ -269,6 +280,7 @@ class Machine:
         self.stubs = []            # [(compiled regex, fn)] -- take precedence over real MIR bodies; listed in the evidence
         self.stub_hits = set()
         self.struct_fields = {}
+        self.const_hook = None     # fn(machine, const path text) -> value | None
 
     # ---- places
     def read_place(self, fr, pl):
@@ -284,11 +296,13 @@ class Machine:
                 return self.read_place(v.frame, v.place)
             if isinstance(v, ValRef):
                 return v.v
+            if isinstance(v, Closure):
+                return v          # closure bodies read captures through `(*_1).k` or `_1.k` alike
             raise Unsupported(f'deref of {v!r}')
         if k == 'field':
             if isinstance(v, Lazy):
                 return v.get(self, pr[1], pr[2] if len(pr) > 2 else '')
-            if isinstance(v, (Struct, Enum)):
+            if isinstance(v, (Struct, Enum, Closure)):
                 return v.fields[pr[1]]
             if isinstance(v, tuple):
                 return v[pr[1]]
@@ -342,12 +356,19 @@ class Machine:
         if c[0] == 'unit':
             return ()
         if c[0] == 'zst':
+            if c[1].startswith('{closure@'):
+                return Closure(c[1], [], getattr(self, 'cur_subst', {}))
             return ('zst', c[1])
         if c[0] == 'path':
             mp = re.search(r'::(promoted\[\d+\])$', c[1])
             if mp and fr is not None and ('const ' + fr.fn.name + '::' + mp.group(1)) in self.fns:
                 return self.exec_fn(self.fns['const ' + fr.fn.name + '::' + mp.group(1)], [])
-            return self.named_const(c[1])
+            text = self.subst_text(c[1])
+            if self.const_hook is not None:
+                v = self.const_hook(self, text)
+                if v is not None:
+                    return v
+            return self.named_const(text)
         raise Unsupported(f'const {c}')
 
     def named_const(self, name):
@@ -390,6 +411,16 @@ class Machine:
             return [self.operand(fr, o) for o in rv[1]]
         if k == 'variant':
             return self.make_variant(rv[1], [self.operand(fr, o) for o in rv[2]])
+        if k == 'closure':
+            mm = re.match(r'^(\{closure@[^}]*\})\s*(?:\{(.*)\})?\s*$', rv[1], re.S)
+            if not mm:
+                raise Unsupported('closure rvalue: ' + rv[1])
+            caps = []
+            if mm.group(2) and mm.group(2).strip():
+                from .mirparse import split_top, parse_operand
+                for part in split_top(mm.group(2)):
+                    caps.append(self.operand(fr, parse_operand(part.split(': ', 1)[1])))
+            return Closure(mm.group(1), caps, getattr(self, 'cur_subst', {}))
         if k == 'struct':
             vals = [self.operand(fr, o) for _, o in rv[2]]
             base = re.sub(r'::<.*?>(?=::|$)', '', rv[1])
@@ -427,7 +458,7 @@ class Machine:
         hits = [(k, vs) for k, vs in self.enum_variants.items() if var in vs]
         if len(hits) == 1:
             return Enum(hits[0][1].index(var), fields, var)
-        if not ty and var[:1].isupper():
+        if (not ty and var[:1].isupper()) or var in self.struct_fields:
             return Struct(fields, path)      # tuple-struct constructor
         raise Unsupported(f'variant {path}')
 
@@ -487,10 +518,62 @@ class Machine:
                 return None
         return sub
 
+    fn_generics = {}        # {simple fn name: [type parameter names]} (srcinfo.fn_generics); set by the harness
+    type_rewrites = []      # [(compiled regex, replacement)] applied to callee texts after substitution (associated types)
+
+    @staticmethod
+    def split_turbofish(callee):
+        """`a::b::<X, Y>` -> ('a::b', ['X', 'Y']); no trailing turbofish -> (callee, [])"""
+        if not callee.endswith('>'):
+            return callee, []
+        depth = 0
+        for i in range(len(callee) - 1, -1, -1):
+            c = callee[i]
+            if c == '>' and callee[i - 1] != '-':
+                depth += 1
+            elif c == '<':
+                depth -= 1
+                if depth == 0:
+                    if i >= 2 and callee[i - 2:i] == '::':
+                        from .mirparse import split_top
+                        return callee[:i - 2], split_top(callee[i + 1:-1])
+                    return callee, []
+        return callee, []
+
+    def bind_generics(self, fn_name, targs, base=None):
+        sub = dict(base or {})
+        simple = re.sub(r'::\{closure#\d+\}$', '', fn_name).rsplit('::', 1)[-1]
+        params = self.fn_generics.get(simple) or []
+        for p_, a in zip(params, targs):
+            sub[p_] = a
+        return sub
+
     def resolve(self, callee):
         self.last_subst = {}
         if callee in self.fns:
             return self.fns[callee]
+        head, targs = self.split_turbofish(callee)
+        if targs and head in self.fns and hasattr(self.fns[head], 'blocks'):
+            self.last_subst = self.bind_generics(head, targs)
+            return self.fns[head]
+        # trait method: explicit impl first, then the trait's default body with Self bound
+        mq = re.match(r'^<(.*) as ((?:crate::)?\w+(?:<.*>)?)>::(\w+)$', head)
+        if mq:
+            f = self._resolve_impl(head)
+            if f is not None:
+                self.last_subst = self.bind_generics(f.name, targs, self.last_subst)
+                return f
+            trait = re.sub(r'^crate::', '', mq.group(2))
+            dflt = f'{trait}::{mq.group(3)}'
+            if dflt in self.fns and hasattr(self.fns[dflt], 'blocks'):
+                self.last_subst = self.bind_generics(dflt, targs, {'Self': mq.group(1)})
+                return self.fns[dflt]
+        f = self._resolve_impl(head)
+        if f is not None and targs:
+            self.last_subst = self.bind_generics(f.name, targs, self.last_subst)
+        return f
+
+    def _resolve_impl(self, callee):
         mt = re.match(r'^<(.*) as ([^<>]*(?:<.*>)?)>::(\w+)(::<.*>)?$', callee)
         if mt:
             self_ty, meth = self._norm_ty(mt.group(1)), mt.group(3)
@@ -501,6 +584,11 @@ class Machine:
                     sub = self._unify(pat, self_ty)
                     if sub is not None:
                         cands.append((f, sub))
+            if len(cands) > 1:
+                raw = mt.group(1).replace('&mut ', '').replace('&', '').strip()
+                full = [c for c in cands if c[0].params and c[0].params[0][1].replace('&mut ', '').replace('&', '').strip().endswith(raw)]
+                if len(full) == 1:
+                    cands = full
             exact = [c for c in cands if not c[1]]
             if len(exact) == 1:
                 return exact[0][0]
@@ -518,7 +606,9 @@ class Machine:
                 continue
             if name.endswith('>::' + meth) and '<impl at ' in name:
                 first = f.params[0][1] if f.params else ''
-                if ty.split('::')[-1] in (first.lstrip('&').replace('mut ', ''), f.ret, self._norm_ty(first), self._norm_ty(f.ret)):
+                hdr = self.impl_header(name) or ''
+                hself = re.sub(r'<.*$', '', hdr.split(' for ')[-1].replace('impl', '', 1).strip()) if hdr else None
+                if ty.split('::')[-1] in (first.lstrip('&').replace('mut ', ''), f.ret, self._norm_ty(first), self._norm_ty(f.ret), hself):
                     cands.append(f)
         if len(cands) > 1:
             inherent = [f for f in cands if ' for ' not in (self.impl_header(f.name) or ' for ')]
@@ -529,7 +619,7 @@ class Machine:
         return None
 
     _HDR = {}
-    src_roots = ['/repo']
+    src_roots = [os.environ.get('VERIF_REPO', '/repo')]
 
     def impl_header(self, name):
         """source text of the `impl ..` header a MIR symbol `<impl at file:l:c: l:c>` points to (None if unreadable)"""
@@ -554,16 +644,37 @@ class Machine:
         Machine._HDR[key] = txt
         return txt
 
+    def subst_text(self, text):
+        sub = getattr(self, 'cur_subst', {})
+        if sub:
+            text = re.sub(r'\b(' + '|'.join(map(re.escape, sub)) + r')\b', lambda mm: sub[mm.group(1)], text)
+        for rx, rep in self.type_rewrites:
+            text = rx.sub(rep, text)
+        return text
+
     def call_closure(self, clo, args):
-        key = clo[1] if isinstance(clo, tuple) else str(clo)
+        while isinstance(clo, (Ref, ValRef)):
+            clo = self.read_place(clo.frame, clo.place) if isinstance(clo, Ref) else clo.v
+        if isinstance(clo, tuple) and clo and clo[0] == 'path':
+            return self.call(clo[1], list(args))          # fn item used as a callable
+        if isinstance(clo, Closure):
+            key, sub = clo.key, clo.subst
+        else:
+            key, sub = (clo[1] if isinstance(clo, tuple) else str(clo)), None
         for name, f in self.fns.items():
             if hasattr(f, 'params') and f.params and key in f.params[0][1] and '{closure#' in name and not name.startswith('const '):
-                return self.exec_fn(f, [clo] + list(args))
+                saved = getattr(self, 'cur_subst', {})
+                if sub is not None:
+                    self.cur_subst = dict(sub)
+                try:
+                    # FnOnce closures take the closure by value, Fn/FnMut by reference: both read captures through `_1`
+                    return self.exec_fn(f, [clo] + list(args))
+                finally:
+                    self.cur_subst = saved
         raise Unsupported('closure body not found: ' + key)
 
     def call(self, callee, args):
-        for p_, v in getattr(self, 'cur_subst', {}).items():
-            callee = re.sub(r'\b' + p_ + r'\b', v, callee)
+        callee = self.subst_text(callee)
         self.calls.add(re.sub(r'\s+', ' ', callee))
         for pat, stub in self.stubs:
             if pat.search(callee):
